@@ -623,6 +623,15 @@ func FieldPath(v ssa.Value) (root ssa.Value, path []string) {
 		}
 		path = append([]string{f.Name()}, path...)
 		v = b
+		// nested struct fields are addressed without an intermediate load: &(&x.A).B
+		for j := 0; j < 8; j++ {
+			fa, ok := v.(*ssa.FieldAddr)
+			if !ok {
+				break
+			}
+			path = append([]string{FieldOfAddr(fa).Name()}, path...)
+			v = fa.X
+		}
 	}
 	return Unwrap(v), path
 }
